@@ -79,7 +79,7 @@ class C13(Check):
     def batches(self, tier, rng, real):
         quick = tier == "quick"
         self.sweeps = 0
-        for _ in range(120 if quick else 3000):
+        for _ in range(300 if quick else 3000):
             lines, outs = gen.random_history(rng, real, all_ops, rng.randint(3, 14), audit=())
             p = gen.Pool()
             for l, o in zip(lines, outs):
@@ -239,7 +239,7 @@ class C12(Check):
         quick = tier == "quick"
         real.inner.keep_mode = True
         try:
-            for _ in range(250 if quick else 6000):
+            for _ in range(800 if quick else 6000):
                 lines, outs = [], []
                 p = gen.Pool()
 
